@@ -54,7 +54,7 @@ T = {
          'All admissible orders of optional login steps within the length bound are executed; the independent server decodes every client byte.',
          'Trusted: refproto framing/CFB8/javahash, cryptography RSA + AES block primitive; vnet; canonical schedule.', '3/C10'),
  'C11': ('model_checking',
-         'exhaustive enumeration of play-state server histories up to a length bound x all supported versions x compression modes, plus all batch-boundary lengths, on the real client over a virtual network',
+         'exhaustive enumeration of play-state server histories up to a length bound x all supported versions x compression modes, plus all batch-boundary lengths, send-fault bursts, and second play sessions of one Connection object at another version, on the real client over a virtual network',
          'All histories over the event alphabet up to the bound on boundary versions, a fixed family on every supported version, every batch length up to the bound.',
          'Trusted: refserver; for non-release versions packet ids come from pyCraft (ids for releases are C07).', '3/C11'),
  'C12': ('model_checking',
